@@ -87,7 +87,10 @@ def lp_run(text, argv, getters=('get_results',), faults=None, time_limit=None, c
             return out
         with recorder.recording(s, faults=faults) as rec:
             try:
-                s.solve(msg=False, timeLimit=time_limit, threads=None, write=False)
+                # the documented pass-through parameter `threads` must not matter: one run in four asks for two threads
+                threads = 2 if (len(text) + sum(map(len, argv))) % 4 == 0 else None
+                s.solve(msg=False, timeLimit=time_limit, threads=threads, write=False)
+                out['threads'] = threads
                 out['status'] = s.model.pulp_status
                 out['info'] = s.model.info_string
             except BaseException as e:  # noqa
@@ -224,8 +227,15 @@ class LPRelation(Relation):
             # not enumerate all matchings)
             rng = ctx.rng(self.name + '/large')
             for i in range(self.large_cases * (6 if ctx.thorough else 1)):
-                ast = instgen.gen_ast(rng, maxS=13, maxP=13, maxL=4, S=rng.randint(9, 13), P=rng.randint(10, 13),
-                                      zero_caps=False)
+                if i % 2 == 0:
+                    ast = instgen.gen_ast(rng, maxS=13, maxP=13, maxL=4, S=rng.randint(9, 13), P=rng.randint(10, 13),
+                                          zero_caps=False)
+                else:
+                    # multi-digit ids on BOTH sides of a pair, with (student, project/lecturer) pairs whose decimal
+                    # concatenations coincide: (11, 1) / (1, 11), (12, 1) / (1, 12) / (2, 11)
+                    P = rng.randint(11, 13)
+                    ast = instgen.gen_ast(rng, maxS=13, maxP=13, S=rng.randint(12, 13), P=P, L=P, zero_caps=False,
+                                          force_pairs=[(11, 1), (1, 11), (12, 1), (2, 11), (1, 12)])
                 twopl = self.gen_kwargs.get('force_twopl') or rng.random() < 0.6
                 stab = twopl and rng.random() < (1.0 if self.gen_kwargs.get('stab_bias', 0) >= 1.0 else 0.3)
                 crits = gen_crits(rng, ast, n=rng.choice([0, 1, 2]))
